@@ -487,6 +487,10 @@ def execute(item, only=None):
                 acc_, _, after, exc, _ = probe(kind, p, v, occ, "set_pilot")
                 if not acc_:
                     rep("%s:advertised-value-rejected:%s" % (tag, src.split(".")[-1]), "%s: %s advertises %r which set_pilot rejects (%s)" % (cfg, src, v, exc), False, True, {"adv": mode})
+        if mode == "occupied":
+            # with a vehicle connected only "what is advertised is accepted" is demanded: an interface that ALSO takes the
+            # connected vehicle's own limit into account may advertise less than the station's maximum and still be truthful
+            continue
         # advertised sets are complete: max = sup of the allowable set, finite lists = the normalised list
         sup = max(hi for lo, hi in ivs)
         vals = {s: [float(v) for s2, v in adv if s2 == s] for s in {a for a, _ in adv}}
